@@ -22,22 +22,32 @@ def scan_trusted(world_text: str, units: dict) -> list[str]:
     items = set()
     lines = world_text.split("\n")
     unit_fns = {}
+    stub = None        # the unit whose contract stub (or real text) the current line belongs to
+    impl_ty = None     # the type of the impl block the current line belongs to (helpers: names the method)
     for i, l in enumerate(lines):
+        ms = re.match(r"\s*/\*@@(stub|end) (.*)\*/", l)
+        if ms:
+            stub = ms.group(2) if ms.group(1) == "stub" else None
+        mi = re.match(r"impl(?:<[^>]*>)?\s+(?:[\w:<>', ]+\s+for\s+)?([A-Za-z_]\w*)", l)
+        if mi:
+            impl_ty = mi.group(1)
+        elif l.startswith("}"):
+            impl_ty = None
         if "#[verifier::external_body]" in l:
-            j = i + 1
-            while j < len(lines) and not re.search(r"\bfn\s+(\w+)", lines[j]):
+            j = i if re.search(r"\b(fn|struct)\s+\w+", l.split("#[verifier::external_body]", 1)[1]) else i + 1
+            while j < len(lines) and not re.search(r"\b(fn|struct)\s+(\w+)", lines[j]):
                 j += 1
-            m = re.search(r"\bfn\s+(\w+)", lines[j]) if j < len(lines) else None
-            nm = m.group(1) if m else "?"
-            us = [u for u in units.values() if u.fn == nm]
-            if us and all(u.status == "proved" for u in us):
-                continue   # contract of a proved unit: discharged in that unit's own world
-            if us:
-                for u in us:
-                    if u.status != "proved":
-                        items.add(("assumed-unit", f"{u.name} ({u.why_assumed})", j))
+            m = re.search(r"\b(fn|struct)\s+(\w+)", lines[j].split("#[verifier::external_body]")[-1]) if j < len(lines) else None
+            kind, nm = (m.group(1), m.group(2)) if m else ("fn", "?")
+            if kind == "struct":
+                items.add(("opaque-dependency-type", nm, j))
                 continue
-            items.add(("external_body", nm, j))
+            if stub is not None and stub in units:
+                u = units[stub]
+                if u.status != "proved":
+                    items.add(("assumed-unit", f"{u.name} ({u.why_assumed})", j))
+                continue   # contract of a proved unit: discharged in that unit's own world
+            items.add(("external_body", (impl_ty + "::" if impl_ty and l.startswith("    ") else "") + nm, j))
         m = re.search(r"assume_specification(?:<[^>]*>)?\s*\[\s*([^\]]+)\]", l)
         if m:
             items.add(("assume_specification", m.group(1).strip(), i))
@@ -57,7 +67,7 @@ def scan_trusted(world_text: str, units: dict) -> list[str]:
         m = re.search(r"\buninterp spec fn\s+(\w+)", l)
         if m:
             items.add(("uninterpreted", m.group(1), i))
-    return sorted(f"{k}: {n}" for k, n, _ in items)
+    return sorted({f"{k}: {n}" for k, n, _ in items})
 
 
 EXTRACTION_REASONS = ("anchor lost", "rustc error in generated world", "verus rejected the world", "verus produced no verification results")
